@@ -230,6 +230,9 @@ def run_derived(case, acc):
     spec = DERIVED[case['spec']]
     events = [tuple(e) for e in case['events']]
     name = spec[0][0]
+    if name in ('min', 'max', 'sum', 'mean'):
+        # values {-1, 0}: a running extremum / sum that is 0 (falsy) followed by a negative item
+        events = [('n', e[1], e[2] - 2) if e[0] == 'n' else e for e in events]
     if name == 'mean':
         # precondition: mean of an empty key is undefined
         cnt = {}
